@@ -1,5 +1,6 @@
 import LC.Props.C02
 import LC.Props.C02Words
+import LC.Props.C02Bounds
 #print axioms LC.Score.lev_le_levWord
 #print axioms LC.Score.score_bound
 #print axioms LC.Score.lev_eq_zero_iff
@@ -8,3 +9,11 @@ import LC.Props.C02Words
 #print axioms LC.V2Tok.cleanupToken_no_blank
 #print axioms LC.V2Tok.interchangeable_values_no_blank_go
 #print axioms LC.V2Tok.goEnv_no_blank
+#print axioms LC.Score.textLength_cons
+#print axioms LC.Score.levWordAux_le
+#print axioms LC.Score.levWord_le_textLength
+#print axioms LC.Score.levWordAux_eq_zero_iff
+#print axioms LC.Score.levWord_eq_zero_iff
+#print axioms LC.Score.src_eq_dst_of_all_eq
+#print axioms LC.Score.conf_one_of_all_equal
+#print axioms LC.Score.conf_one_iff_identical
